@@ -6,6 +6,8 @@ from .c01 import FUNCS
 
 
 def run(chk):
+    from .common import per_instance_state_of_modules
+    per_instance_state_of_modules(chk, "C06.classes.state_is_per_instance", ['state', 'concurrency.executor', 'execution'])   # no object created in a class body: instances share no mutable state through the class
     chk.assume("B/S: the service client signals failure by raising an Exception (CheckpointError); BaseExceptions that are not Exceptions kill the consumer thread and are outside the model")
     chk.assume("G: queue.Queue is a linearizable FIFO; a `with lock:` block and a single Event/Queue call are atomic")
     batcher.check_consumer(chk, "C06")
